@@ -16,6 +16,7 @@ package channel
 
 import (
 	"errors"
+	"sort"
 
 	"perun.network/go-perun/wallet"
 )
@@ -65,8 +66,17 @@ func SetBackend(b Backend, id int) {
 
 // CalcID calculates the CalcID.
 func CalcID(p *Params) (ID, error) {
-	var lastErr error
+	// The backends of the first participant are asked in the order of their
+	// IDs: which of them determines the channel ID must not depend on the
+	// iteration order of the map.
+	ids := make([]wallet.BackendID, 0, len(p.Parts[0]))
 	for i := range p.Parts[0] {
+		ids = append(ids, i)
+	}
+	sort.Slice(ids, func(a, b int) bool { return ids[a] < ids[b] })
+
+	var lastErr error
+	for _, i := range ids {
 		id, err := backend[i].CalcID(p)
 		if err == nil {
 			return id, nil
